@@ -512,6 +512,9 @@ def monitor_trace(t, P):
                 fail('C04', i, 'get of task %d returned Timeout(Recycle)' % tt)
             if h2 and c == 107:
                 fail('C10', i, 'NoRuntimeSpecified although the pool has a runtime (task %d)' % tt)
+            if c == 108 and tt not in cancelled_tasks and (w_, c_, r_) != (0, 0, 0):
+                fail('C10', i, 'get of task %d with timeouts (wait %d, create %d, recycle %d) panicked by itself '
+                               '(no scripted panic)' % (tt, w_, c_, r_))
             if c == 101 and w_ == 0:
                 fail('C10', i, 'task %d answered Timeout(Wait) although no wait timeout applies to it' % tt)
             if c == 102 and c_ == 0:
